@@ -725,6 +725,8 @@ func (s *Session) step(fr *Frame, in ssa.Instruction, st *State) {
 		s.note("select in %s: nondeterministic", fr.fn.String())
 		fr.vals[x] = s.opaqueVal(x.Type(), "select")
 		s.assumeRange(st, fr.vals[x])
+	case *ssa.MakeChan:
+		fr.vals[x] = scalar(x.Type(), s.newRef(st))
 	case *ssa.SliceToArrayPointer, *ssa.MultiConvert:
 		fr.vals[x.(ssa.Value)] = s.opaqueVal(x.(ssa.Value).Type(), "conv")
 	default:
